@@ -614,6 +614,8 @@ def ctor_cases(tier):
     # a honoured 5 mm request with a plane a hair past a whole number of steps; core lengths whose value in the
     # input unit x conversion factor is not the nearest double of the rounded length (100.7 cm, 100.9 cm)
     out.append(mk(bset='hair5', user='file5mm', flow=0.5))
+    for unit in ('cm', 'ft'):
+        out.append(mk(unit=unit, bset='noise', flow=0.5))
     for Lm in (1.007, 1.009):
         out.append(mk(unit='cm', length=Lm, lenround=4, flow=0.5))
         out.append(mk(unit='cm', length=Lm, lenround=4, flow=0.5, user='file5mm'))
@@ -665,6 +667,10 @@ def ctor_scenario(c, user_file):
     elif bset == 'sub':
         planes = [L / 4.0 + 1e-13, L / 4.0, L / 2.0]
         cells = [0.0, L / 2.0 - 1e-7, L]
+    elif bset == 'noise':
+        # planes whose value in the input unit x conversion factor lands a few ulp ABOVE its 12-decimal rounding
+        # (12.3 cm -> 0.12300000000000001 m)
+        planes = [0.123, 0.307]
     elif bset == 'hair5':
         # a requested plane 2.5 um (0.05 % of a 5 mm step) past a whole number of 5 mm steps
         planes = [0.0750025]
